@@ -301,7 +301,7 @@ def view(outcome):
     if lang == 'scala':
         if b['package'] == '':
             return {'error': 'EScalaPackageMissing'}      # Scala::begin_file refuses the empty package: Err(InvalidInput) since the /repo fix of scala.rs:131
-        v['package'] = b['package'] if '.' in b['package'] else '<no dot: no package line>'
+        v['package'] = b['package']     # since fix 30 of /repo a name without a dot is written too (`package object p {` / `package p {`)
     if lang in ('kotlin', 'go'):
         v['package'] = b['package']
     if lang in ('swift', 'kotlin'):
@@ -357,8 +357,13 @@ def observe(lang, rc, err, text):
         m2 = re.search(r'^package (\S+) \{$', text, re.M)
         if m and m2 and m2.group(1) == m.group(2):
             v['package'] = m.group(1) + '.' + m.group(2)
-        elif not re.search(r'^package ', text, re.M):
-            v['package'] = '<no dot: no package line>'
+        elif not m:
+            # a package name without a dot: no `package <parent>` line, the package object and the packaging carry the whole name
+            mo = re.search(r'^package object (\S+) \{$', text, re.M)
+            if mo and m2 and mo.group(1) == m2.group(1) and not re.search(r'^package \S+$', text, re.M):
+                v['package'] = mo.group(1)
+            else:
+                return {'unrecognised_output': 'scala package lines'}
         else:
             return {'unrecognised_output': 'scala package lines'}
     tm = {}
